@@ -604,6 +604,32 @@ def run(ctx):
                           "C08 fails on the implementation: %s gives %s; the mass on the condition as written is %s (%s)"
                           % (text, show_outcome(oc), exp, cause),
                           dict(text=text, impl=show_outcome(oc), expected=str(exp), cause=cause))
+    # ---------------- 0b. deep-tail consistency of a discrete law with a large mean: the point mass must be the
+    # difference of the cumulative values (P(X=k) = P(X<=k) - P(X<k)) and satisfy pmf(k+1)/pmf(k) = mu/(k+1),
+    # across the place where Poisson.pmf switches to its logarithmic formula (k > 100)
+    tail_ks = [98, 99, 100, 101, 102, 103, 120, 150]
+    tail_texts = []
+    for k in tail_ks:
+        tail_texts += ["P(Poisson(100) = %d)" % k, "P(Poisson(100) <= %d)" % k, "P(Poisson(100) < %d)" % k]
+    tobs = [outcome(o) for o in C.run_impl(impl_case, tail_texts, ctx["rundir"], limit=10.0, chunksize=1)]
+    pm = {}
+    for i, k in enumerate(tail_ks):
+        eq, le, lt = tobs[3 * i: 3 * i + 3]
+        if not all(x[0] == "val" for x in (eq, le, lt)):
+            rep.violation(dict(kind="no-value", cause="Poisson tail", outcome="tail"), "C08 fails: P(Poisson(100) ? %d) gives %s / %s / %s" % (k, show_outcome(eq), show_outcome(le), show_outcome(lt)),
+                          dict(text="P(Poisson(100) = %d)" % k, impl=[show_outcome(x) for x in (eq, le, lt)]))
+            continue
+        pm[k] = float(eq[1])
+        d = float(le[1]) - float(lt[1])
+        if abs(pm[k] - d) > 1e-12 + 1e-9 * abs(d) or not (0 <= pm[k] <= 1):
+            rep.violation(dict(kind="wrong-value", cause="Poisson.pmf in the tail", outcome="point-vs-cdf"),
+                          "C08 fails on the implementation: P(Poisson(100) = %d) is %r but P(X<=%d) - P(X<%d) is %r" % (k, pm[k], k, k, d),
+                          dict(text="P(Poisson(100) = %d)" % k, impl=pm[k], expected=d, spec="mass on {k} = cdf(k) - cdf(k-1)"))
+    for k in tail_ks:
+        if k in pm and k + 1 in pm and pm[k] > 0 and abs(pm[k + 1] / pm[k] - 100.0 / (k + 1)) > 1e-9:
+            rep.violation(dict(kind="wrong-value", cause="Poisson.pmf in the tail", outcome="ratio"),
+                          "C08 fails on the implementation: P(Poisson(100) = %d) / P(Poisson(100) = %d) is %r, the law gives %r" % (k + 1, k, pm[k + 1] / pm[k], 100.0 / (k + 1)),
+                          dict(text="P(Poisson(100) = %d)" % (k + 1), impl=pm[k + 1], expected=pm[k] * 100.0 / (k + 1)))
     # ---------------- 1. the grid
     if ctx.get("replay"):
         r = json.load(open(ctx["replay"]))
